@@ -1,6 +1,8 @@
 """C14 - Create is all-or-nothing and unique; Delete removes exactly one plan.
 
-Theorem side: coq/store/props/C14.v.
+Theorem side: coq/store/props/C14.v - c14_create_atomic, c14_create_unencodable, c14_create_unique, c14_delete_exact
+(sqlite model); c14_create_atomic_cosmos, c14_delete_exact_cosmos and c14_cosmos_two_batch_gap (cosmosdb model: atomic
+for the plan partition; the plan batch and the search batch are proved NOT atomic together).
 Correspondence (every run): a value the JSON codec refuses is planted at EVERY action position of generated plans
 (request through an `any` field, or an attempt's response), directly through Vault.Create and through
 Workstream.Submit; duplicate creates; interleaved creates/deletes of 2-5 plans; (sqlite) plans that share one
@@ -32,6 +34,12 @@ def run(ctx):
     failing = sc.classify(ctx, "C14", cases, results, "create-or-delete-not-atomic-or-not-exact")
     gap = [c for c in cases if c["kind"] == "fault" and c["dist"].get("mode") == 1]
     kills = [c for c in cases if c["kind"] == "kill"]
+
+    def kill_outcome(c):
+        after = (c["observed"][-1].get("after") or {})
+        present = any(k == c["observed"][-1].get("plan") and str(v).startswith("plan") for k, v in after.items())
+        return "child %s, plan %s afterwards" % ("finished" if c["dist"].get("child_finished") else "killed before it reported",
+                                                 "complete" if present else "absent")
     ops = sum(c["dist"]["ops"] for c in cases)
     ctx.evidence(dict(
         evaluations=ops,
@@ -44,6 +52,7 @@ def run(ctx):
         failing_cases=failing,
         cosmos_two_batch_gap_reproduced=len(gap),
         kill_cases=dict(n=len(kills), child_finished=sum(1 for c in kills if c["dist"].get("child_finished")),
+                        outcomes=fw.histogram(kill_outcome(c) for c in kills),
                         delays_us=fw.histogram((c["dist"]["delay_us"] // 500) * 500 for c in kills)),
         distribution=dict(family=sc.dist(cases, "kind") if False else fw.histogram(c["kind"] for c in cases),
                           backend=sc.dist(cases, "backend"), with_row_counts=sc.dist(cases, "counts"),
